@@ -44,6 +44,9 @@ pub struct Race {
     pub racers: Vec<usize>,
     /// the snapshot urgency the server answers with during the race
     pub urg: Urg,
+    /// evaluate only the snapshot oracle of C12 (every snapshot uploaded during the race equals
+    /// the chain replay at its version) instead of the convergence oracle of C02
+    pub snapshots_only: bool,
 }
 
 pub struct RaceCtx {
@@ -116,6 +119,24 @@ impl Scenario for Race {
                 return Err(format!("{class}: racing sync of replica {r} failed: {e}"));
             }
         }
+        if self.snapshots_only {
+            let mut n = 0;
+            for (v, bytes) in &w.chain.snapshots[self.world.chain.snapshots.len()..] {
+                n += 1;
+                let got = decode_snapshot(bytes).map_err(|e| format!("snapshot-format: {e}"))?;
+                let segs = w.chain.segments_upto(*v).ok_or_else(|| "snapshot-version: snapshot for a version that is not on the chain".to_string())?;
+                let want = crate::model::ops::replay_chain(segs).map_err(|e| format!("wire-format: {e}"))?;
+                if got != want {
+                    return Err(format!(
+                        "snapshot-content: the snapshot uploaded for {} during racing syncs contains {} but the chain up to that version replays to {}",
+                        crate::world::replicas::tname(*v),
+                        crate::world::replicas::tasks_str(&got),
+                        crate::world::replicas::tasks_str(&want)
+                    ));
+                }
+            }
+            return Ok(Outcome { outcome_hash: crate::util::h64(&(w.chain.versions.len(), n, rejections)), nontrivial: n > 0 && rejections > 0 });
+        }
         for (i, o) in w.obs.iter().enumerate() {
             replica_invariant(&w.chain, o, i)?;
         }
@@ -131,7 +152,7 @@ fn start_states(r: usize, depth: usize, updates: Vec<(String, Option<String>, i6
     start_states_active(r, r, depth, updates, big, populated)
 }
 
-fn start_states_active(r: usize, active: usize, depth: usize, updates: Vec<(String, Option<String>, i64)>, big: u8, populated: bool) -> Vec<(World, Vec<Act>)> {
+pub fn start_states_active(r: usize, active: usize, depth: usize, updates: Vec<(String, Option<String>, i64)>, big: u8, populated: bool) -> Vec<(World, Vec<Act>)> {
     let mut inner = SyncSys::new(r);
     inner.active = active;
     inner.updates = updates;
@@ -165,7 +186,7 @@ fn start_states_active(r: usize, active: usize, depth: usize, updates: Vec<(Stri
     v
 }
 
-fn subsets(n: usize) -> Vec<Vec<usize>> {
+pub fn subsets(n: usize) -> Vec<Vec<usize>> {
     let mut out = vec![];
     for m in 1u32..(1 << n) {
         if m.count_ones() >= 2 {
@@ -234,6 +255,7 @@ pub fn run(opts: &Opts) -> i32 {
                     world: starts[*i].0.clone(),
                     racers: racers.clone(),
                     urg,
+                    snapshots_only: false,
                 };
                 let cfg = ExploreCfg {
                     bound: if racers.len() >= 3 { bound3 } else { usize::MAX },
@@ -265,7 +287,7 @@ pub fn run(opts: &Opts) -> i32 {
             for f in fails.into_iter().take(1) {
                 let class = f.what.split(':').next().unwrap_or("").to_string();
                 // replay twice before reporting
-                let sc = Race { world: starts[i].0.clone(), racers: racers.clone(), urg };
+                let sc = Race { world: starts[i].0.clone(), racers: racers.clone(), urg, snapshots_only: false };
                 let choices: Vec<Choice> = f.trace.iter().map(|(c, _)| *c).collect();
                 let r1 = crate::explore::sched::replay(&sc, &choices).map(|(_, r)| r.err());
                 let r2 = crate::explore::sched::replay(&sc, &choices).map(|(_, r)| r.err());
@@ -316,7 +338,7 @@ pub fn replay(case: &serde_json::Value) -> Result<(), String> {
     if case["space"].as_str().unwrap_or("").contains("fresh") || case["space"].as_str().unwrap_or("").contains("snapshots") {
         // prior history of these spaces only uses the first two replicas; nothing else differs
     }
-    let sc = Race { world: w, racers: racers.clone(), urg };
+    let sc = Race { world: w, racers: racers.clone(), urg, snapshots_only: case["snapshots_only"].as_bool().unwrap_or(false) };
     let (trace, r) = crate::explore::sched::replay(&sc, &choices)?;
     for (c, l) in &trace {
         println!("  R{} {}", racers[c.task], l);
